@@ -324,7 +324,7 @@ fn c13_dom<D: Dom>(cx: &RunCtx) {
     tok_run::<D>(cx, "E-TOK Σ_class + rewrites", sigma_class(D::EV), if quick { 4 } else { 4 }, 9, ONLY_DEFAULT, &k, Some(extra), 3000);
     tok_run::<D>(cx, "E-TOK Σ_full + rewrites", sigma_full(D::EV), if quick { 2 } else { 3 }, 9, ONLY_DEFAULT, &k, Some(extra), 3000);
     // targeted alphabet for the spelling rewrites: every construct that has a second spelling
-    let mut a: Vec<String> = ["2", "3", "@", "+", "-", "*", "^", "(", ")", ",", "²", "³", "⁰", "mod(", "pow("].iter().map(|s| s.to_string()).collect();
+    let mut a: Vec<String> = ["2", "3", "9223372036854775808", "@", "+", "-", "*", "^", "(", ")", ",", "²", "³", "⁰", "mod(", "pow("].iter().map(|s| s.to_string()).collect();
     if D::EV.has_floor_brackets() {
         a.extend(["⌊", "⌋", "⌈", "⌉", "floor(", "ceil(", "0.5"].iter().map(|s| s.to_string()));
     }
